@@ -41,6 +41,8 @@ structure Cfg (α : Type) where
   onPropChange : List (Act α) := []
   onPhase1 : List (Act α) := []
   onPhase2 : List (Act α) := []
+  /-- behaviour flags of the shape (what a target's debuff resistance is looked up by) -/
+  flags : List Nat := []
 deriving Inhabited
 
 structure Inst (α : Type) where
@@ -70,6 +72,8 @@ structure Desc (α : Type) where
   tickImm : Bool := false
   stats : List (Nat × α) := []
   weak : List (Nat × Bool) := []
+  /-- base chance to apply (`[]` or not positive: always applies) -/
+  chance : List α := []
 
 inductive Ev (α : Type)
   | added (t : Int) (i : Inst α)
@@ -80,6 +84,8 @@ inductive Ev (α : Type)
   | hook (kind : String) (t : Int) (uid : Nat)
   | err (kind : String)
   | ret (ok : Bool)
+  | resisted (t src : Int) (name : Nat) (chance base ehr eres dres : α)
+  | applied (chance : α)          -- the chance reported with the `added` announcement that follows
 
 structure St (α : Type) where
   targets : Int → List (Inst α) := fun _ => []
@@ -89,6 +95,13 @@ structure St (α : Type) where
   /-- the run's random generator as far as `DispelOrder_RANDOM` uses it: the order in which the
   shuffle leaves the candidates (positions into the candidate list); a runtime choice, any value -/
   shuffle : List Nat := []
+  /-- the run's generator as the resist roll of `AddModifier` draws from it (one number per roll) -/
+  draws : List α := []
+  /-- what the resist roll reads from the units: effect hit rate of a source, effect resistance of a
+  target, and a target's resistance per behaviour flag -/
+  ehr : List (Int × α) := []
+  eres : List (Int × α) := []
+  dres : Int → List (Nat × α) := fun _ => []
 
 inductive Op (α : Type)
   | add (t : Int) (d : Desc α)
@@ -315,19 +328,45 @@ def dispelSel (l : List (Inst α)) (status : Nat) (order : Nat) (count : Int) (s
     (uniq (shuffle.filterMap fun p => (dispelCand cat l status)[p]?)).take n
   else dispelIdx cat l status order count
 
+/-- `DebuffRESMap.GetDebuffRES`: the largest resistance among the given flags (0 if none) -/
+def debuffRes (m : List (Nat × α)) (flags : List Nat) : α :=
+  flags.foldl (fun out f => match m.find? (·.1 == f) with
+    | some kv => if kv.2 > out then kv.2 else out
+    | none => out) 0
+
+/-- `attemptResist`: the chance an application has — base × (1 + effect hit rate of the source) ×
+(1 − effect resistance of the target) × (1 − its resistance to the shape's flags) -/
+def lookupA (m : List (Int × α)) (t : Int) : α := ((m.find? (·.1 == t)).map (·.2)).getD 0
+def baseChance (d : Desc α) : α := d.chance.headD 0
+
+def applyChance (s : St α) (t : Int) (d : Desc α) : α :=
+  baseChance d * (1 + lookupA s.ehr d.source) * (1 - lookupA s.eres t) * (1 - debuffRes (s.dres t) (cfgOf cat d.name).flags)
+
+/-- resisted: a positive base chance and the roll is not below the chance -/
+def resists (s : St α) (t : Int) (d : Desc α) : Bool :=
+  baseChance d > 0 && !(s.draws.headD 0 < applyChance cat s t d)
+
 /-- one manager operation, given `rec` for the operations issued by listeners -/
 def execWith (rec : St α → Op α → Option (St α)) (s : St α) : Op α → Option (St α)
   | .add t d =>
     if !validTarget t then some (emitEv s (.err "invalid_target"))
     else if !validTarget d.source then some (emitEv s (.err "invalid_source"))
+    else if resists cat s t d then
+      some (emitEv (emitEv { s with draws := s.draws.tail, nextUid := s.nextUid + 1 }
+        (.resisted t d.source d.name (applyChance cat s t d) (baseChance d) (lookupA s.ehr d.source) (lookupA s.eres t) (debuffRes (s.dres t) (cfgOf cat d.name).flags)))
+        (.ret false))
     else
+      let s := if baseChance d > 0 then { s with draws := s.draws.tail } else s
       let inst := newInstance cat s d
       let s0 : St α := { s with nextUid := s.nextUid + 1 }
       let plan := addPlan (cfgOf cat d.name).stacking (s0.targets t) inst
       let fin (os : Option (St α)) : Option (St α) := os.map fun s' => emitEv s' (.ret true)
+      -- a new instance is announced together with the chance it had (only rolled applications have one)
+      let finA (os : Option (St α)) : Option (St α) :=
+        if baseChance d > 0 then fin (os.map fun s' => emitEv s' (.applied (applyChance cat s t d))) else fin os
       match plan.2 with
       | .none => fin (some s0)
-      | .added i => fin (emitAdd cat rec (setT s0 t plan.1) t i)
+      | .added i => finA (emitAdd cat rec (setT s0 t plan.1) t i)
       | .extended i old => fin (emitExtDur cat rec (setT s0 t plan.1) t i old)
       | .unsupported => some (emitEv s0 (.err "unsupported_stacking"))
   | .remove t name =>
